@@ -168,16 +168,27 @@ CLAIMED = {
              "tree: document order lists each address once and extends the ancestor relation; each axis yields exactly its "
              "axis relation in axis order (with delb's reading of following/preceding); a step selects a subsequence of its "
              "axis passing test and predicates, `[k]` is the proximity position; steps compose as unions without duplicates; "
-             "expression results are duplicate-free unions; in_document_order sorts by address (Props/C06.lean). The full "
-             "statement 'equals XPath 1.0' is not a theorem: seven recorded findings show the unchanged evaluator deviates "
-             "beyond the three established deviations. Tie to code: result handle lists (order included) of the real xpath() "
+             "expression results are duplicate-free unions; in_document_order sorts by address (Props/C06.lean). A declarative "
+             "XPath 1.0 semantics of location paths in the wording of the recommendation (Model/XPath/Spec.lean: axes as "
+             "relations over the nodes of the tree, proximity order, node tests on expanded names, predicate-by-predicate "
+             "filtering with context position and size, composition as union over context nodes, unions of paths; the three "
+             "established deviations built in and marked) is proved equal to the mechanism: per axis and per step as lists "
+             "(same nodes, same order), per path and expression as duplicate-free lists with the same members, "
+             "in_document_order as the document-order listing of the denotation (c06_axis_eq_denotation, "
+             "c06_step_eq_denotation, c06_path_eq_denotation, c06_path_denotation_chain, c06_expr_eq_denotation), and the "
+             "mechanism is total exactly outside the recorded error sites (c06_step_total, c06_path_total, c06_expr_total). "
+             "The equality carries one hypothesis, DocTypeOk: no step applies a node-type test other than node() to the "
+             "document node - that is the open finding document-node-type-tests, kept as a proved counterexample. The VALUE "
+             "semantics of predicate expressions is the mechanism's (the spec takes it as given): the findings about "
+             "attribute comparisons, not()/boolean() and number-valued predicates live there, so the full statement 'equals "
+             "XPath 1.0' stays partial. Tie to code: result handle lists (order included) of the real xpath() "
              "== compiled model for grammar-generated expressions x documents x context nodes x prefix maps; a safe "
              "sub-grammar is additionally compared with lxml's XPath engine; CSS selectors vs the cssselect translation "
              "evaluated by lxml.",
         note=TB + "Reference engine: lxml/libxml2. Known findings (attribute comparison of absent/empty attributes, "
              "non-literal number predicates, `..`/axes from the document node, node-type tests on the document node, "
              "attribute functions on non-tag candidates) are excluded from the generated stream and replayed separately.",
-        technique="Lean 4 theorems on the evaluator model (axes, proximity positions, union/dedup, ordering) + differential correspondence + lxml as reference oracle",
+        technique="Lean 4 theorems on the evaluator model (axes, proximity positions, union/dedup, ordering; equality with a declarative XPath 1.0 location-path semantics) + differential correspondence + lxml as reference oracle",
         design="3/C06",
     ),
     "C08": dict(
@@ -276,12 +287,23 @@ CLAIMED = {
              "character and is undone by entity resolution (tables regenerated from /repo), and for every serializable tree, "
              "every accepted caller mapping and every iteration order of the namespace sets a namespace-aware tree builder "
              "rebuilds the emitted tokens into the original tree with text merged (c02_serialize_roundtrip, composing C13). "
-             "Tie to code: TagNode.serialize(namespaces=...) string == render of the model's tokens exactly, Namespaces "
-             "normalisation == model, and the implementation's output re-read with delb and lxml equals the original tree.",
-        note=TB + "Tokenisation of the output string into tags/attributes/character data is lxml's (checked per case by "
-             "re-parsing). Documented exclusions: CR in text, TAB/LF/CR in attribute values. Unprefixed attributes are read as "
-             "delb documents it (default namespace in scope).",
-        technique="Lean 4 theorems (escape round trip, token-level serialize/build round trip) + translator-generated tables + differential correspondence",
+             "String level (Model/Scan.lean, Props/C02Scan.lean): an XML 1.0 scanner for the emitted syntax (start/end tags, "
+             "quoted attributes with reference resolution, comments, PIs, character data; rejects '<' and stray '&' in "
+             "values, duplicate attributes, ']]>', '--' in comments, unterminated constructs, non-XML characters) is proved "
+             "to read the rendered string of every well-formed token list back into those tokens (c02_scan_render), the "
+             "emitted tokens of every serializable tree with XML names are well-formed (c02_scan_emitted, prefix names from "
+             "collect: c02_scan_collect_names), hence the output STRING is well-formed and scanning + building it gives the "
+             "original tree (c02_scan_serialize_roundtrip, c02_scan_serialize_wellformed). Tie to code: "
+             "TagNode.serialize(namespaces=...) string == render of the model's tokens exactly, Namespaces normalisation == "
+             "model, the Lean scanner reads every real output string into the original tree, and the implementation's output "
+             "re-read with delb and lxml equals the original tree.",
+        note=TB + "The XML reader of the implementation is lxml/libxml2 (re-parsing per case; the Lean scanner was compared "
+             "with lxml on 23 000 mutated documents by harness/dev/scan_vs_lxml). Input-domain exclusions, each with a proved "
+             "counterexample in Props/C02Scan.lean: CR in text, TAB/LF/CR in attribute values, white space at the start of a "
+             "processing instruction's content (XML cannot represent them literally and the serializer writes them "
+             "unescaped). Names are checked against delimiters, not against the NameStartChar/NameChar classes. Unprefixed "
+             "attributes are read as delb documents it (default namespace in scope).",
+        technique="Lean 4 theorems (escape round trip, token-level serialize/build round trip, string-level scanner round trip) + translator-generated tables + differential correspondence",
         design="3/C02",
     ),
     "C13": dict(
